@@ -209,7 +209,7 @@ def r4_copies(run, F):
             n += 1
             vals = sorted(s[0] for s in st)
             base = fn.split("::{closure")[0]
-            is_arg_closure = "{closure" in fn and any(FM.flag_write(s) == ("is_immediate_function_argument", 1)
+            is_arg_closure = "{closure" in fn and any(FM.flag_write(s) == ("is_immediate_function_argument", {1})
                                                      for blk in b["mir"]["blocks"] for s in blk["s"])
             label = "%s%s@%d" % (base.split(" as ")[0].replace("<alpha::common::", ""), "{cl}" if "{closure" in fn else "", _ord(FM.cfgs[fn], u))
             if is_arg_closure:
@@ -271,6 +271,10 @@ def check(run):
     r4_copies(run, F)
     r5_hint_codes(run, F)
     r6_visit(run, F)
+    # what may silently become a pointer: an argument is wrapped in an Autocoerce exactly when can_coerce_into allows it,
+    # and E512/E513 compare against the coerced type -- the coercion relation is part of "requires an explicit &" (shared with C07.R5)
+    from props import c07
+    c07.r3_r5_relations(run, F)
     if run.tier == "thorough":
         FA = run.facts("A")
         run.key_prefix = "cfgA:"
